@@ -56,7 +56,7 @@ OPTS = {"cat_none": False}
 
 
 def plan(tier):
-    return 5000 if tier == "quick" else 120000
+    return 12000 if tier == "quick" else 120000
 
 
 def budget(tier):
